@@ -92,6 +92,9 @@ func runC15(c *Checker) {
 	// "no byte lost" also depends on the framing below: exact-length reads that consume the
 	// transport itself, the flush protocol (C16) - imported as LAYER/C16:<rule>
 	importLayers(c, "C16", "C08")
+	// connKit.Read is one gbn Recv: a Recv that loses or repeats part of a message (C14, the chunk
+	// accumulator) breaks the byte stream above it
+	importLayers(c, "C14")
 	w := c.w
 	rg := newRanger(w)
 	reads := ioMethods(w, targetMbox, "Read")
